@@ -10,6 +10,7 @@ from typing import Optional
 from executorlib.standalone.inputcheck import (
     check_cores_and_threads,
     check_resource_dict,
+    check_resource_dict_keys,
 )
 from executorlib.standalone.queue import cancel_items_in_queue
 from executorlib.standalone.serialize import cloudpickle_register
@@ -31,6 +32,7 @@ class ExecutorBase(FutureExecutor):
         cloudpickle_register(ind=3)
         self._max_cores = max_cores
         self._default_cores = 1
+        self._spawner = None
         self._future_queue: queue.Queue = queue.Queue()
         self._process: Optional[RaisingThread] = None
 
@@ -91,6 +93,10 @@ class ExecutorBase(FutureExecutor):
         Returns:
             Future: A Future representing the given call.
         """
+        if self._spawner is not None:
+            check_resource_dict_keys(
+                resource_dict=resource_dict, spawner=self._spawner
+            )
         cores = resource_dict.get("cores", None)
         if cores is None or (cores == 1 and self._default_cores >= 1):
             # the executor-level number of cores is used for this call
